@@ -78,7 +78,7 @@ def _install(ctx):
 class World:
     """one private directory with files, cache dirs and the virtual clock discipline"""
 
-    def __init__(self, rng, clk):
+    def __init__(self, rng, clk, timelines=None):
         self.rng = rng
         self.clk = clk
         self.root = pathlib.Path(tempfile.mkdtemp(prefix='vmon16-'))
@@ -88,6 +88,21 @@ class World:
         self.vers = ['3.7', '3.10', '3.13']
         self.cur = {}
         self.seen = {}
+        # the modification-time line each file lives on: the clock, or absolute values a clock-based line never shows
+        # (exactly 0.0 = the epoch, as left by archives and reproducible builds; far in the future = a skewed clock)
+        self.timelines = timelines if timelines is not None else [rng.choice(['clock', 'clock', 'clock', 'epoch', 'future']) for _ in self.files]
+        self.last_mtime = {}
+
+    def next_mtime(self, f):
+        mode = self.timelines[self.files.index(f)]
+        if mode == 'clock':
+            return self.clk.L
+        if f not in self.last_mtime:
+            t = 0.0 if mode == 'epoch' else self.clk.L + 20 * 365 * 86400.0
+        else:
+            t = self.last_mtime[f] + [1.0, 1000.0, 2.0, 86400.0][int(self.last_mtime[f]) % 4]
+        self.last_mtime[f] = t
+        return t
 
     def content(self):
         return ''.join(self.rng.choice(SN) for _ in range(self.rng.randint(0, 4)))
@@ -95,7 +110,8 @@ class World:
     def write(self, f, s):
         self.clk.tick()
         f.write_text(s, encoding='utf-8')
-        os.utime(f, (self.clk.L, self.clk.L))
+        t = self.next_mtime(f)
+        os.utime(f, (t, t))
         self.cur[f] = s
 
     def stamp_cache(self):
@@ -119,13 +135,13 @@ OPS = ['write', 'write', 'parse', 'parse', 'parse', 'parse_diff', 'parse_nocache
        'parse_code', 'fill', 'inflight', 'inflight']
 
 
-def run_history(ctx, rng, ops=None, inject=None):
+def run_history(ctx, rng, ops=None, inject=None, timelines=None):
     """ops: list of (op, file index, version, cache dir index, content or None) to replay; else random"""
     import parso
     import parso.cache as C
     from parso.file_io import FileIO
     clk = _state['clk']
-    w = World(rng, clk)
+    w = World(rng, clk, timelines if timelines is not None else (None if ops is None else ['clock'] * 3))
     log = []
     hit_after_write = False
     wrote = set()
@@ -144,7 +160,7 @@ def run_history(ctx, rng, ops=None, inject=None):
             f, cd = w.files[fi], w.cds[ci]
             g = parso.load_grammar(version=v)
             log.append([op, fi, v, ci, new])
-            wit = {'ops': list(log)}
+            wit = {'ops': list(log), 'timelines': list(w.timelines)}
             clk.tick()
             _state['hit'] = False
             m = None
@@ -154,7 +170,8 @@ def run_history(ctx, rng, ops=None, inject=None):
                     wrote.add(f)
                     continue
                 if op == 'touch':
-                    os.utime(f, (clk.L, clk.L))
+                    t = w.next_mtime(f)
+                    os.utime(f, (t, t))
                     continue
                 if op == 'newproc':
                     C.parser_cache.clear()
@@ -241,6 +258,9 @@ def run_history(ctx, rng, ops=None, inject=None):
                               'content: %s' % (op, fi, v, ci, d), wit, op=op, served_from_cache=bool(_state['hit']),
                               inflight_write_on_this_file_before=bool(prev_inflight), ops_since_inflight=(len(log) - 1 - prev_inflight[-1]) if prev_inflight else None)
                 return
+        for fi_, mode in enumerate(w.timelines):
+            if mode != 'clock' and any(o[1] == fi_ and o[0].startswith('parse') for o in log):
+                ctx.count('histories_parsing_a_file_on_the_%s_timeline' % mode)
         if hit_after_write:
             ctx.nontriv(repr(log))
             ctx.count('histories_with_hit_after_write')
@@ -326,7 +346,7 @@ def run_shard(spec, ctx):
 
 def replay(w, ctx):
     _install(ctx)
-    run_history(ctx, random.Random(0), ops=[list(o) for o in w['ops']])
+    run_history(ctx, random.Random(0), ops=[list(o) for o in w['ops']], timelines=w.get('timelines'))
 
 
 def shards(tier, seed):
@@ -337,4 +357,5 @@ def shards(tier, seed):
 
 
 def floors(tier):
-    return {'evaluations': 5000, 'cache_hits': 1000, 'histories_with_hit_after_write': 300, 'inflight_writes': 300, 'line_injections': 20}
+    return {'evaluations': 5000, 'cache_hits': 1000, 'histories_with_hit_after_write': 300, 'inflight_writes': 300, 'line_injections': 20,
+            'histories_parsing_a_file_on_the_epoch_timeline': 100, 'histories_parsing_a_file_on_the_future_timeline': 100}
